@@ -130,6 +130,7 @@ type NegScript struct {
 	TLS13Only    bool     `json:"tls_1_3_only,omitempty"` // the server refuses anything below TLS 1.3 (alert protocol_version)
 	AuthReply    int      `json:"auth_reply"`
 	AuthCond     string   `json:"auth_cond,omitempty"`
+	ResumeOne    bool     `json:"enabled_resume_spelled_1,omitempty"` // <enabled resume='1'/>: the other legal spelling of an XML boolean
 	AuthFailDrop int      `json:"after_auth_failure,omitempty"` // after <failure/>: 1 = the server ends the stream and closes, 2 = it resets the connection once the client has read the failure
 	Session      int      `json:"session"`
 	SM           bool     `json:"sm"`
@@ -627,7 +628,11 @@ func (sc *SrvConn) handle(it *Item) {
 		}
 		switch scr.Enable {
 		case EnableOK:
-			sc.Send(fmt.Sprintf("<enabled xmlns='%s' id='%s' resume='true'%s/>", nsSM, xmlEscape(scr.SMId), loc))
+			yes := "true"
+			if scr.ResumeOne {
+				yes = "1"
+			}
+			sc.Send(fmt.Sprintf("<enabled xmlns='%s' id='%s' resume='%s'%s/>", nsSM, xmlEscape(scr.SMId), yes, loc))
 			sc.Enabled = true
 			sc.StanzasSent = 0
 		case EnableNoResume:
